@@ -15,7 +15,7 @@ Example ex_des_value :
 Proof. vm_compute. reflexivity. Qed.
 Example ex_des_trace_len :
   N.of_nat (length (snd (des_cbc_enc_leak (des_key_schedule_std (hex "0123456789abcdef")) (hex "0000000000000000")
-                                (hex "00112233445566778899aabbccddeeff")))) = 32794.
+                                (hex "00112233445566778899aabbccddeeff")))) = 26 + 512 * N.of_nat des_scan_rows.
 Proof. vm_compute. reflexivity. Qed.
 Example ex_des_traces_equal :
   snd (des_cbc_enc_leak (des_key_schedule_std (hex "0123456789abcdef")) (hex "0000000000000000") (hex "0011223344556677")) =
@@ -26,9 +26,10 @@ Example ex_des_outputs_differ :
   N.eqb (be_to_N (fst (des_cbc_enc_leak (des_key_schedule_std (hex "0123456789abcdef")) (hex "0000000000000000") (hex "0011223344556677"))))
         (be_to_N (fst (des_cbc_enc_leak (des_key_schedule_std (hex "fedcba9876543210")) (hex "0000000000000000") (hex "0011223344556677")))) = false.
 Proof. vm_compute. reflexivity. Qed.
-(* the table projection of one DES block: 16 rounds x 8 S-boxes, 64 rows each *)
+(* the table projection of one DES block: 16 rounds x 8 S-boxes, des_scan_rows rows each
+   (64 in the pinned source, see Gen/GenC19.v) *)
 Example ex_des_block_rle :
-  firstn 2 (tab_rle (des_block_trace 0 true 16)) = [(0, 0, 16, 64, 16); (1, 0, 16, 64, 16)]%nat
+  firstn 2 (tab_rle (des_block_trace 0 true 16)) = [(0, 0, 16, des_scan_rows, 16); (1, 0, 16, des_scan_rows, 16)]%nat
   /\ length (tab_rle (des_block_trace 0 true 16)) = 128%nat.
 Proof. vm_compute. split; reflexivity. Qed.
 
